@@ -5,6 +5,7 @@ import formats as F
 import walkers
 from guards import timed
 import id3file_tie
+import dsf_tie
 import iff_tie
 
 RULE_EXTRA = (" Plus: FLAC files with a leading ID3v2 tag saved with deleteid3=True (the space of the removed tag counts as available); "
@@ -151,6 +152,7 @@ def run(ctx):
     flac_deleteid3(ctx)
     ogg_foreign_paging(ctx)
     id3file_tie.run(ctx)
+    dsf_tie.run(ctx)
     iff_tie.run(ctx)
 
 
